@@ -14,6 +14,10 @@ typedef struct { rfbClientPtr cl; int peer; vs_buf buf; int gone; } conn_t;
 static conn_t conns[MAXC]; static int nconns;
 static rfbScreenInfoPtr scr;
 
+/* what the application's newClientHook answers for the next connection */
+static enum rfbNewClientAction hook_answer = RFB_CLIENT_ACCEPT;
+static enum rfbNewClientAction new_client_hook(rfbClientPtr cl) { return hook_answer; }
+
 static void gone_hook(rfbClientPtr cl) { conn_t *c = (conn_t *)cl->clientData; if (c) { c->gone = 1; c->cl = NULL; } }
 
 static void pump(void) {
@@ -33,6 +37,7 @@ static void obs(const char *marks) {
 static void run_case(char **lines, int nl) {
   int li;
   scr = vs_screen(8, 8, 4);
+  scr->newClientHook = new_client_hook;
   for (li = 0; li < nl; li++) {
     char op[32]; int a = 0, b = 0, c = 0;
     int n = sscanf(lines[li], "%31s %d %d %d", op, &a, &b, &c);
@@ -40,7 +45,8 @@ static void run_case(char **lines, int nl) {
     if (!strcmp(op, "flags") && n == 4) {
       scr->alwaysShared = a ? TRUE : FALSE; scr->neverShared = b ? TRUE : FALSE; scr->dontDisconnect = c ? TRUE : FALSE;
       obs(NULL);
-    } else if (!strcmp(op, "conn") && n == 2 && nconns < MAXC) {
+    } else if ((!strcmp(op, "conn") || !strcmp(op, "connhold") || !strcmp(op, "connrefuse")) && n == 2 && nconns < MAXC) {
+      hook_answer = !strcmp(op, "connhold") ? RFB_CLIENT_ON_HOLD : (!strcmp(op, "connrefuse") ? RFB_CLIENT_REFUSE : RFB_CLIENT_ACCEPT);
       int sv[2]; conn_t *k = &conns[nconns]; rfbClientPtr cl;
       memset(k, 0, sizeof *k);
       socketpair(AF_UNIX, SOCK_STREAM, 0, sv);
@@ -49,7 +55,14 @@ static void run_case(char **lines, int nl) {
       vs_write(sv[1], "RFB 003.008\n", 12);
       cl = rfbNewClient(scr, sv[0]);
       if (!cl) k->gone = 1;
-      else { if (a) cl->reverseConnection = TRUE; cl->clientData = k; cl->clientGoneHook = gone_hook; k->cl = cl; }
+      else {
+        /* rfbReverseConnection after rfbConnect: reverseConnection = TRUE; if (!cl->onHold) rfbStartOnHoldClient(cl) */
+        if (a) { cl->reverseConnection = TRUE; if (!cl->onHold) rfbStartOnHoldClient(cl); }
+        cl->clientData = k; cl->clientGoneHook = gone_hook; k->cl = cl;
+      }
+      pump(); obs(NULL);
+    } else if (!strcmp(op, "release") && n == 2) {
+      if (a >= 0 && a < nconns && conns[a].cl && !conns[a].gone && conns[a].cl->onHold) rfbStartOnHoldClient(conns[a].cl);
       pump(); obs(NULL);
     } else if (!strcmp(op, "adv") && n == 2) {
       if (a >= 0 && a < nconns && state_of(&conns[a]) == RFB_SECURITY_TYPE) { unsigned char t = rfbSecTypeNone; vs_write(conns[a].peer, &t, 1); }
